@@ -139,14 +139,14 @@ static void one_case(const vf::Args& a, uint64_t idx, const char* tname) {
       for (int p = 0; p < ns * ns; ++p) { n1 += m[p] * m[p]; n2 += mi[p] * mi[p]; }
       n1 = std::sqrt(n1); n2 = std::sqrt(n2);
       const L kappa = n1 * n2;
-      if (std::isfinite(double(kappa)) && kappa * eps * K * 8 < 1e-3L) {
+      if (std::isfinite(double(kappa)) && kappa * eps * K * 16 < 2e-3L) {
         const auto X = tfm::invert(Ai);
         // reference as a full tensor: the Mandel matrix of the inverse map
         const MatView Xr{mi, ns};
-        R.check(nm("invert"), S, idx, h, t4dist(from_st2tost2(X, N), from_st2tost2(Xr, N)), K * 8 * eps * kappa * n2, dump);
+        R.check(nm("invert"), S, idx, h, t4dist(from_st2tost2(X, N), from_st2tost2(Xr, N)), K * 16 * eps * kappa * n2, dump);
         // defining identity from the returned value only
         const T4 P = ddot(from_st2tost2(X, N), from_st2tost2(Ai, N));
-        R.check(nm("invert:X*A=Id"), S, idx, h, t4dist(P, restrict_dim(t4idsym(), N)), K * 8 * eps * kappa * std::sqrt(L(ns)), dump);
+        R.check(nm("invert:X*A=Id"), S, idx, h, t4dist(P, restrict_dim(t4idsym(), N)), K * 16 * eps * kappa * std::sqrt(L(ns)), dump);
         done = true;
       }
     }
